@@ -7,7 +7,7 @@ from common import guard, ints
 
 META = {
     "property": "C16",
-    "proof_modules": ["PyodaProofs.C16"],
+    "proof_modules": ["PyodaProofs.C16", "PyodaProofs.C16Irregular", "PyodaProofs.C16Dates"],
     "drivers": ["drv_weekyear"],
     "theorems": [
         "Pyoda.C16.dayOfWeek_eq", "Pyoda.C16.weekYearStart_aligned", "Pyoda.C16.weekYearStart_window",
@@ -15,13 +15,35 @@ META = {
         "Pyoda.C16.week_le_weeksInYear", "Pyoda.C16.weekDate_roundtrip", "Pyoda.C16.localDate_roundtrip", "Pyoda.C16.weeks_advance",
         "Pyoda.C16.next_spec", "Pyoda.C16.previous_spec", "Pyoda.C16.nextOrSame_spec", "Pyoda.C16.previousOrSame_spec",
         "Pyoda.C16.nthWeekday_spec", "Pyoda.C16.pyIsoWeek1Monday_eq", "Pyoda.C16.iso_rule_matches_isocalendar", "Pyoda.C16.iso_matches_isocalendar_gregorian",
+        # regular rules, on dates (C16Dates.lean)
+        "Pyoda.C16.weekYear_unique", "Pyoda.C16.weeks_advance_dates", "Pyoda.C16.week_boundary_dates",
+        "Pyoda.C16.localDate_ok_iff", "Pyoda.C16.localDate_sound", "Pyoda.C16.yearOf_exists",
+        "Pyoda.C16.adjusterFactory_ok_iff", "Pyoda.C16.irr_validate_range",
+        # irregular (BCL-style) rules, every minimum-days value 1..7 and every first day of week (C16Irregular.lean)
+        "Pyoda.C16.weekYearStart_aligned_any", "Pyoda.C16.weekYearStart_window_any",
+        "Pyoda.C16.irr_weekYear_eq", "Pyoda.C16.irr_weekYear_adjacent", "Pyoda.C16.irr_weekYear_firstDay",
+        "Pyoda.C16.irr_weekYear_contains", "Pyoda.C16.irr_weekYear_unique",
+        "Pyoda.C16.irr_weeks_bounds", "Pyoda.C16.irr_weeks_reach_next", "Pyoda.C16.irr_week_le_weeksInYear",
+        "Pyoda.C16.irr_weekDate_roundtrip", "Pyoda.C16.irr_localDate_roundtrip", "Pyoda.C16.irr_localDate_sound",
+        "Pyoda.C16.irr_accept_iff", "Pyoda.C16.irr_localDate_ok_iff", "Pyoda.C16.irr_localDate_error",
+        "Pyoda.C16.irr_localDate_rejects_previous_year", "Pyoda.C16.irr_localDate_rejects_next_year",
+        "Pyoda.C16.irr_weeks_advance_partial", "Pyoda.C16.irr_week_boundary", "Pyoda.C16.irr_year_boundary",
+        # where irregular rules depart from the regular statements, by design (refuted on Gregorian dates)
+        "Pyoda.C16.weekYearIsCalendarYear_firstDay", "Pyoda.C16.weekYearIsCalendarYear_irregular_fails",
+        "Pyoda.C16.weeksSpan_irregular_fails", "Pyoda.C16.weekYearContains_irregular_fails",
+        "Pyoda.C16.weeksAdvance_irregular_fails", "Pyoda.C16.weekBoundary_irregular_fails",
     ],
     "trusted_base": [
         "the calendar enters the theorems as an arbitrary year table with start(y+1) = start(y) + len(y), len(y) >= 7 (C01 establishes this for every calendar); the harness reads the table entries from the code per op",
         "ISO rule = isocalendar: iso_matches_isocalendar_gregorian is about the Lean transcription of Lib/_pydatetime.isocalendar, which is tied to the real CPython by the correspondence op wy.pyiso (and the oracle compares the code with date.isocalendar() directly)",
+        "get_local_date theorems take the calendar-year lookup of the result (LocalDate.year of the constructed date) as a function yo with YearOf c yo (it returns the year whose table span contains the day; yearOf_exists shows the hypothesis is satisfiable for every table); that the code's year is that year is C01",
     ],
-    "partial": ["irregular (BCL-style) rules: correspondence and oracle only, the theorems are stated for regular rules"],
-    "rule": "dates within 8 days of every sampled year boundary and at calendar range ends, all 71 rules, all calendars; distinct = distinct op; non-trivial = every op",
+    "partial": [
+        "irregular (BCL-style) rules: by design a week-year ends with its calendar year, so 'weeks advance by one every seven days from the first day of week' holds inside a week-year only (irr_weeks_advance_partial, irr_week_boundary, irr_year_boundary); the regular statements weeksSpanStatement, weekYearContainsStatement, weeksAdvanceStatement, weekBoundaryStatement, weekYearIsCalendarYearStatement are kept and refuted for irregular rules on Gregorian dates (*_irregular_fails)",
+        "irregular rules with a minimum of 2, 3, 5 or 6 days cannot be obtained from the public factory (CalendarWeekRule has three members); the theorems cover them, the correspondence builds them through the private constructor",
+        "DateAdjusters.month / day_of_month / start_of_month / end_of_month / add_period are calendar-field operations (C01/C09): checked by the direct oracle adjusters.fields only",
+    ],
+    "rule": "dates within 8 days of every sampled year boundary and at calendar range ends, all 71 public rules plus the 28 irregular rules with 2, 3, 5, 6 minimum days, all calendars; thorough: every year boundary of every calendar (21 days around it) for all 49 irregular rules and every fifth one for the 49 regular rules; distinct = distinct op; non-trivial = every op",
 }
 
 _P = None
@@ -76,13 +98,38 @@ def all_rules():
     return out
 
 
+def extra_irregular_rules():
+    """irregular rules with 2, 3, 5, 6 minimum days: not reachable through CalendarWeekRule, private constructor"""
+    return [(md, fd, 1) for md in (2, 3, 5, 6) for fd in range(1, 8)]
+
+
+def irregular_rules():
+    return [(md, fd, 1) for md in range(1, 8) for fd in range(1, 8)]
+
+
+def regular_rules():
+    return [(md, fd, 0) for md in range(1, 8) for fd in range(1, 8)]
+
+
+_rule_cache = {}
+
+
 def mk_rule(md, fd, irr):
+    k = (md, fd, irr)
+    if k in _rule_cache:
+        return _rule_cache[k]
     Pm = P()
     from pyoda_time.calendars import CalendarWeekRule, WeekYearRules
-    if irr:
+    if irr and md in (1, 4, 7):
         cw = {1: CalendarWeekRule.FIRST_DAY, 4: CalendarWeekRule.FIRST_FOUR_DAY_WEEK, 7: CalendarWeekRule.FIRST_FULL_WEEK}[md]
-        return WeekYearRules.from_calendar_week_rule(cw, Pm.IsoDayOfWeek(fd))
-    return WeekYearRules.for_min_days_in_first_week(md, Pm.IsoDayOfWeek(fd))
+        r = WeekYearRules.from_calendar_week_rule(cw, Pm.IsoDayOfWeek(fd))
+    elif irr:
+        from pyoda_time.calendars._simple_week_year_rule import _SimpleWeekYearRule
+        r = _SimpleWeekYearRule(md, Pm.IsoDayOfWeek(fd), True)
+    else:
+        r = WeekYearRules.for_min_days_in_first_week(md, Pm.IsoDayOfWeek(fd))
+    _rule_cache[k] = r
+    return r
 
 
 CALS = None
@@ -106,9 +153,41 @@ def ctx_tokens(cid, rule, years):
     return f"{rule[0]} {rule[1]} {rule[2]} {mn} {mx} {mnd} {mxd} {len(rows)} " + " ".join(f"{a} {b} {c_}" for a, b, c_ in rows)
 
 
-# ops carry the calendar ordinal as a leading pseudo-token inside the op name: "wy.of@<calidx>"; the model ignores
-# nothing — so instead the harness keeps a side table from op line to calendar id.
+# the calendar and the rule of an op are not part of the op line (the model needs only the year-table rows): the
+# harness keeps a side table from op line to (calendar id, rule) / calendar id.
 SIDE = {}
+
+_date_cache = {}
+
+
+def mk_date(cid, d):
+    k = (cid, d)
+    v = _date_cache.get(k)
+    if v is None:
+        if len(_date_cache) > 200000:
+            _date_cache.clear()
+        v = _date_cache[k] = P().LocalDate._ctor(days_since_epoch=d, calendar=cal_info(cid)[0])
+    return v
+
+
+def dow_arg(x):
+    """IsoDayOfWeek member for 0..7 (0 = NONE), the raw integer otherwise"""
+    return P().IsoDayOfWeek(x) if 0 <= x <= 7 else x
+
+
+def triple(r, date):
+    return (r.get_week_year(date), r.get_week_of_week_year(date), int(date.day_of_week))
+
+
+_last_sweep = [None, None]
+
+
+def sweep_triples(line, cid, r, d0, k):
+    if _last_sweep[0] == line:
+        return _last_sweep[1]
+    out = [triple(r, mk_date(cid, d0 + i)) for i in range(k)]
+    _last_sweep[0], _last_sweep[1] = line, out
+    return out
 
 
 def impl(t):
@@ -122,8 +201,10 @@ def impl(t):
         n = int(t[8])
         a = [int(x) for x in t[9 + 3 * n:]]
         if op == "wy.of":
-            d = Pm.LocalDate._ctor(days_since_epoch=a[1], calendar=c)
+            d = mk_date(cid, a[1])
             return ints(r.get_week_year(d), r.get_week_of_week_year(d), int(d.day_of_week))
+        if op == "wy.sw":
+            return ints(*[x for tr in sweep_triples(line, cid, r, a[0], a[1]) for x in tr])
         if op == "wy.pyiso":
             iso = datetime.date.fromordinal(a[1] + 719163).isocalendar()
             return ints(iso[0], iso[1], iso[2])
@@ -134,24 +215,72 @@ def impl(t):
     if op == "wd.nav":
         d, tg = int(t[1]), int(t[2])
         cid = SIDE[line]
-        c = cal_info(cid)[0]
-        date = Pm.LocalDate._ctor(days_since_epoch=d, calendar=c)
-        T = Pm.IsoDayOfWeek(tg)
+        date = mk_date(cid, d)
+        T = dow_arg(tg)
         from pyoda_time import DateAdjusters
 
         def g(fn):
             try:
                 return str(fn()._days_since_epoch - d)
-            except (OverflowError, ValueError):
+            except ValueError:
+                # an invalid target is refused with ValueError; a valid one can only fail by leaving the calendar
+                return "!range" if 1 <= tg <= 7 else "!valueError"
+            except OverflowError:
                 return "!range"
         return " ".join([str(int(date.day_of_week)), g(lambda: date.next(T)), g(lambda: date.previous(T)),
-                         g(lambda: DateAdjusters.next_or_same(T)(date)), g(lambda: DateAdjusters.previous_or_same(T)(date))])
+                         g(lambda: DateAdjusters.next_or_same(T)(date)), g(lambda: DateAdjusters.previous_or_same(T)(date)),
+                         g(lambda: DateAdjusters.next(T)(date)), g(lambda: DateAdjusters.previous(T)(date))])
     if op == "wd.nth":
         f, dim, occ, dow = (int(x) for x in t[1:5])
         first = Pm.LocalDate._ctor(days_since_epoch=f)
         r = Pm.LocalDate.from_year_month_week_and_day(first.year, first.month, occ, Pm.IsoDayOfWeek(dow) if 1 <= dow <= 7 else dow)
         return str(r.day)
     raise ValueError(op)
+
+
+# ---- the property on pairs of dates (shared by the wy.of and wy.sw oracles) -------------------------------------
+
+def advance_failure(rule, what, t0, t7, nweeks):
+    """t0 = (week-year, week, dow) of a date, t7 of the date seven days later, nweeks = weeks in t0's week-year"""
+    (wy, w, _), (wy7, w7, _) = t0, t7
+    if not rule[2]:
+        if not ((wy7 == wy and w7 == w + 1) or (wy7 == wy + 1 and w7 == 1 and w == nweeks)):
+            return {"key": "weeks-do-not-advance", "what": f"{what}: ({wy},{w}) then 7 days later ({wy7},{w7}), {nweeks} weeks in {wy}"}
+        return None
+    # irregular: +1 inside a week-year; across the year end the short weeks allow week 1 or 2 after the last two weeks
+    if not ((wy7 == wy and w7 == w + 1) or (wy7 == wy + 1 and 1 <= w7 <= 2 and nweeks - 1 <= w <= nweeks)):
+        return {"key": "weeks-do-not-advance-irregular", "what": f"{what}: ({wy},{w}) then 7 days later ({wy7},{w7}), {nweeks} weeks in {wy}"}
+    return None
+
+
+def boundary_failure(rule, what, tprev, t, nweeks_prev):
+    """tprev = triple of the previous day, t = triple of the day, nweeks_prev = weeks in tprev's week-year (callable)"""
+    (wy1, w1, _), (wy, w, dow) = tprev, t
+    first = dow == rule[1]
+    if not rule[2]:
+        same = (wy1, w1) == (wy, w)
+        if same != (not first):
+            return {"key": "week-boundary-not-at-first-day", "what": f"{what}: previous day in same week = {same}, day of week {dow}"}
+        if not same and not ((wy1 == wy and w == w1 + 1) or (wy == wy1 + 1 and w == 1 and w1 == nweeks_prev())):
+            return {"key": "week-boundary-step", "what": f"{what}: previous day ({wy1},{w1}), this day ({wy},{w})"}
+        return None
+    if wy1 == wy:
+        if w != w1 + (1 if first else 0):
+            return {"key": "week-boundary-irregular", "what": f"{what}: previous day ({wy1},{w1}), this day ({wy},{w}), day of week {dow}, first day of week {rule[1]}"}
+    elif wy == wy1 + 1:
+        if w != 1 or w1 != nweeks_prev():
+            return {"key": "year-boundary-irregular", "what": f"{what}: previous day ({wy1},{w1}) of {nweeks_prev()} weeks, this day ({wy},{w})"}
+    else:
+        return {"key": "week-boundary-irregular", "what": f"{what}: previous day in week-year {wy1}, this day in {wy}"}
+    return None
+
+
+def weekyear_failure(rule, what, year, wy):
+    if abs(wy - year) > 1:
+        return {"key": "weekyear-not-adjacent", "what": f"{what}: week-year {wy}"}
+    if rule[2] and (wy > year or (rule[0] == 1 and wy != year)):
+        return {"key": "irregular-weekyear-not-calendar-year", "what": f"{what}: calendar year {year}, week-year {wy}"}
+    return None
 
 
 def oracle(t):
@@ -164,11 +293,12 @@ def oracle(t):
         r = mk_rule(*rule)
         n = int(t[8])
         cy, days = (int(x) for x in t[9 + 3 * n:])
-        date = Pm.LocalDate._ctor(days_since_epoch=days, calendar=c)
+        date = mk_date(cid, days)
         wy, w, dow = r.get_week_year(date), r.get_week_of_week_year(date), date.day_of_week
         what = f"calendar {cid} rule {rule} date day-number {days} ({date.year}-{date.month}-{date.day})"
-        if abs(wy - date.year) > 1:
-            return {"key": "weekyear-not-adjacent", "what": f"{what}: week-year {wy}"}
+        f = weekyear_failure(rule, what, date.year, wy)
+        if f:
+            return f
         try:
             nweeks = r.get_weeks_in_week_year(wy, c)
             back = r.get_local_date(wy, w, dow, c)
@@ -180,54 +310,170 @@ def oracle(t):
             return {"key": "weekdate-roundtrip", "what": f"{what}: ({wy},{w},{int(dow)}) converts back to day {back._days_since_epoch}"}
         if not (1 <= w <= nweeks):
             return {"key": "week-out-of-range", "what": f"{what}: week {w} of {nweeks}"}
-        if not rule[2] and days + 7 <= mxd:
-            d7 = Pm.LocalDate._ctor(days_since_epoch=days + 7, calendar=c)
+        if days + 7 <= mxd:
+            d7 = mk_date(cid, days + 7)
             try:
                 wy7, w7 = r.get_week_year(d7), r.get_week_of_week_year(d7)
             except Exception:  # noqa: BLE001
                 return None
-            if not ((wy7 == wy and w7 == w + 1) or (wy7 == wy + 1 and w7 == 1 and w == nweeks)):
-                return {"key": "weeks-do-not-advance", "what": f"{what}: ({wy},{w}) then 7 days later ({wy7},{w7}), {nweeks} weeks in {wy}"}
+            f = advance_failure(rule, what, (wy, w, int(dow)), (wy7, w7, int(dow)), nweeks)
+            if f:
+                return f
         if days - 1 >= mnd:
-            d1 = Pm.LocalDate._ctor(days_since_epoch=days - 1, calendar=c)
+            d1 = mk_date(cid, days - 1)
             try:
-                same = (r.get_week_year(d1), r.get_week_of_week_year(d1)) == (wy, w)
+                t1 = (r.get_week_year(d1), r.get_week_of_week_year(d1), int(d1.day_of_week))
+                f = boundary_failure(rule, what, t1, (wy, w, int(dow)), lambda: r.get_weeks_in_week_year(t1[0], c))
             except Exception:  # noqa: BLE001
                 return None
-            if not rule[2] and same != (int(dow) != rule[1]):
-                return {"key": "week-boundary-not-at-first-day", "what": f"{what}: previous day in same week = {same}, day of week {int(dow)}"}
+            if f:
+                return f
         if cid == "ISO" and rule == (4, 1, 0) and 1 <= date.year <= 9999:
             iso = datetime.date.fromordinal(days + 719163).isocalendar()
             if (iso[0], iso[1], iso[2]) != (wy, w, int(dow)):
                 return {"key": "iso-rule-vs-isocalendar", "what": f"{what}: pyoda ({wy},{w},{int(dow)}) stdlib {tuple(iso)}"}
         return None
+    if op == "wy.sw":
+        cid, rule = SIDE[line]
+        c, calc, mn, mx, mnd, mxd = cal_info(cid)
+        r = mk_rule(*rule)
+        n = int(t[8])
+        d0, k = (int(x) for x in t[9 + 3 * n:])
+        trs = sweep_triples(line, cid, r, d0, k)
+        weeks = {}
+
+        def nweeks_of(wy):
+            if wy not in weeks:
+                weeks[wy] = r.get_weeks_in_week_year(wy, c)
+            return weeks[wy]
+        for i, tr in enumerate(trs):
+            days = d0 + i
+            date = mk_date(cid, days)
+            wy, w, dow = tr
+            what = f"calendar {cid} rule {rule} date day-number {days} ({date.year}-{date.month}-{date.day})"
+            f = weekyear_failure(rule, what, date.year, wy)
+            if f:
+                return f
+            try:
+                nweeks = nweeks_of(wy)
+                back = r.get_local_date(wy, w, date.day_of_week, c)
+            except Exception as e:  # noqa: BLE001
+                if mnd + 14 <= days <= mxd - 14:
+                    return {"key": "weekdate-roundtrip-raises", "what": f"{what}: ({wy},{w},{dow}) -> {type(e).__name__}: {e}"}
+                continue
+            if back != date:
+                return {"key": "weekdate-roundtrip", "what": f"{what}: ({wy},{w},{dow}) converts back to day {back._days_since_epoch}"}
+            if not (1 <= w <= nweeks):
+                return {"key": "week-out-of-range", "what": f"{what}: week {w} of {nweeks}"}
+            if i + 7 < k:
+                f = advance_failure(rule, what, tr, trs[i + 7], nweeks)
+                if f:
+                    return f
+            if i >= 1:
+                try:
+                    f = boundary_failure(rule, what, trs[i - 1], tr, lambda: nweeks_of(trs[i - 1][0]))
+                except Exception:  # noqa: BLE001
+                    f = None
+                if f:
+                    return f
+        return None
+    if op == "wy.date":
+        cid, rule = SIDE[line]
+        c, calc, mn, mx, mnd, mxd = cal_info(cid)
+        r = mk_rule(*rule)
+        n = int(t[8])
+        wy, w, dow = (int(x) for x in t[9 + 3 * n:])
+        what = f"calendar {cid} rule {rule} get_local_date({wy}, {w}, {dow})"
+        if not 1 <= dow <= 7:
+            try:
+                res = r.get_local_date(wy, w, dow_arg(dow), c)
+            except ValueError:
+                return None
+            except Exception:  # noqa: BLE001
+                return None
+            return {"key": "weekdate-invalid-day-of-week-accepted", "what": f"{what} returned day {res._days_since_epoch}"}
+        try:
+            res = r.get_local_date(wy, w, Pm.IsoDayOfWeek(dow), c)
+        except ValueError:
+            # refused: then no date of the calendar may have this triple.  The only candidate, with plain integers:
+            ry = row(cid, wy)
+            if ry is None or w < 1 or w > 60:
+                return None
+            s0 = ry[1]
+            into = ((s0 + 3) % 7 + 1 - rule[1]) % 7
+            ws = s0 - into if 7 - into >= rule[0] else s0 - into + 7
+            cand = ws + (w - 1) * 7 + (dow - rule[1]) % 7
+            if mnd <= cand <= mxd:
+                try:
+                    t3 = triple(r, mk_date(cid, cand))
+                except Exception:  # noqa: BLE001
+                    return None
+                if t3 == (wy, w, dow):
+                    return {"key": "weekdate-rejected-but-exists", "what": f"{what} raised ValueError although day {cand} has exactly this week-year, week and day of week"}
+            return None
+        except Exception:  # noqa: BLE001
+            return None
+        if res.calendar != c:
+            return {"key": "weekdate-wrong-calendar", "what": f"{what} returned a date in calendar {res.calendar.id}"}
+        try:
+            t3 = triple(r, res)
+        except Exception:  # noqa: BLE001
+            return None
+        if t3 != (wy, w, dow):
+            return {"key": "weekdate-accepted-wrong-triple", "what": f"{what} returned day {res._days_since_epoch} ({res.year}-{res.month}-{res.day}) whose week-year, week, day of week are {t3}"}
+        return None
     if op == "wd.nav":
         d, tg = int(t[1]), int(t[2])
-        if not 1 <= tg <= 7:
-            return None
         cid = SIDE[line]
         c = cal_info(cid)[0]
-        date = Pm.LocalDate._ctor(days_since_epoch=d, calendar=c)
-        T = Pm.IsoDayOfWeek(tg)
+        date = mk_date(cid, d)
         from pyoda_time import DateAdjusters
+        calls = [("next", lambda T: date.next(T), 1, 7), ("previous", lambda T: date.previous(T), -7, -1),
+                 ("next_or_same", lambda T: DateAdjusters.next_or_same(T)(date), 0, 6),
+                 ("previous_or_same", lambda T: DateAdjusters.previous_or_same(T)(date), -6, 0),
+                 ("DateAdjusters.next", lambda T: DateAdjusters.next(T)(date), 1, 7),
+                 ("DateAdjusters.previous", lambda T: DateAdjusters.previous(T)(date), -7, -1)]
+        if not 1 <= tg <= 7:
+            for name, fn, _, _ in calls:
+                try:
+                    r = fn(dow_arg(tg))
+                except ValueError:
+                    continue
+                except Exception as e:  # noqa: BLE001
+                    return {"key": "weekday-invalid-target-other-error", "what": f"calendar {cid} day {d} {name}({tg}) raised {type(e).__name__}: {e}"}
+                return {"key": "weekday-invalid-target-accepted", "what": f"calendar {cid} day {d} {name}({tg}) returned day {r._days_since_epoch}"}
+            return None
+        T = Pm.IsoDayOfWeek(tg)
         if int(date.day_of_week) != ((d + 3) % 7) + 1:
             return {"key": "day-of-week", "what": f"day {d}: day_of_week {int(date.day_of_week)}"}
         mnd, mxd = cal_info(cid)[4], cal_info(cid)[5]
         cur = int(date.day_of_week)
-        exp = {"next": (tg - cur - 1) % 7 + 1, "previous": -((cur - tg - 1) % 7 + 1), "next_or_same": (tg - cur) % 7, "previous_or_same": -((cur - tg) % 7)}
-        for name, fn, lo, hi in [("next", lambda: date.next(T), 1, 7), ("previous", lambda: date.previous(T), -7, -1),
-                                 ("next_or_same", lambda: DateAdjusters.next_or_same(T)(date), 0, 6),
-                                 ("previous_or_same", lambda: DateAdjusters.previous_or_same(T)(date), -6, 0)]:
+        nxt, prv = (tg - cur - 1) % 7 + 1, -((cur - tg - 1) % 7 + 1)
+        exp = {"next": nxt, "previous": prv, "next_or_same": (tg - cur) % 7, "previous_or_same": -((cur - tg) % 7),
+               "DateAdjusters.next": nxt, "DateAdjusters.previous": prv}
+        time = Pm.LocalTime(13, 7, 5)
+        for name, fn, lo, hi in calls:
             inside = mnd <= d + exp[name] <= mxd
             try:
-                r = fn()
+                r = fn(T)
             except (OverflowError, ValueError) as e:
                 if inside:
                     return {"key": "weekday-navigation-raises-in-range", "what": f"calendar {cid} day {d} (weekday {cur}) {name}({tg}) raised {type(e).__name__} although day {d + exp[name]} is inside the calendar"}
                 continue
             diff = r._days_since_epoch - d
             if not (lo <= diff <= hi) or int(r.day_of_week) != tg or r.calendar != c:
-                return {"key": "weekday-navigation-" + name, "what": f"calendar {cid} day {d} (weekday {int(date.day_of_week)}) {name}({tg}) moved {diff} days to weekday {int(r.day_of_week)}"}
+                return {"key": "weekday-navigation-" + name.replace("DateAdjusters.", "adjuster-"), "what": f"calendar {cid} day {d} (weekday {int(date.day_of_week)}) {name}({tg}) moved {diff} days to weekday {int(r.day_of_week)}"}
+            # the same step through the other entry points: with_date_adjuster, LocalDateTime (time of day kept)
+            ldt = date + time
+            if name in ("next", "previous"):
+                r2 = (ldt.next(T) if name == "next" else ldt.previous(T))
+            else:
+                adj = getattr(DateAdjusters, name.replace("DateAdjusters.", ""))(T)
+                if date.with_date_adjuster(adj) != r:
+                    return {"key": "with-date-adjuster", "what": f"calendar {cid} day {d} with_date_adjuster({name}({tg})) differs from applying the adjuster"}
+                r2 = ldt.with_date_adjuster(adj)
+            if r2.date != r or r2.time_of_day != time:
+                return {"key": "weekday-navigation-datetime", "what": f"calendar {cid} day {d} {name}({tg}) on a LocalDateTime gave {r2!r}, on the date day {r._days_since_epoch}"}
         return None
     if op == "wd.nth":
         f, dim, occ, dow = (int(x) for x in t[1:5])
@@ -244,9 +490,15 @@ def oracle(t):
     return None
 
 
+def edge(cid, ys):
+    """year rows an op needs: near the ends of the calendar the validation looks at min_year and max_year + 1"""
+    mn, mx = cal_info(cid)[2], cal_info(cid)[3]
+    return ys + [mn, mx + 1] if (min(ys) <= mn or max(ys) >= mx) else ys
+
+
 def gen(ctx, cids=None, extras=True):
     rng = ctx.rng
-    rules = all_rules()
+    rules = all_rules() + extra_irregular_rules()
     ops = []
     allcids = cal_ids()
     cids = allcids if cids is None else cids
@@ -259,11 +511,11 @@ def gen(ctx, cids=None, extras=True):
             ry = row(cid, y)
             if ry is None:
                 continue
-            rs = rules if ctx.thorough or cid in ("ISO", "Hebrew Civil", "Hijri Civil-Indian (base 15)") else rng.sample(rules, 12) + [(4, 1, 0)]
+            rs = rules if ctx.thorough or cid in ("ISO", "Hebrew Civil", "Hijri Civil-Indian") else rng.sample(rules, 14) + [(4, 1, 0)]
             if cid == "ISO" and ctx.thorough and y % 40 != 0:
-                rs = [(4, 1, 0)] + rng.sample(rules, 3)  # every year with the ISO rule (vs isocalendar), all 71 rules every 40th year
+                rs = [(4, 1, 0)] + rng.sample(rules, 3)  # every year with the ISO rule (vs isocalendar), all rules every 40th year
             if cid == "ISO" and not ctx.thorough and y < 2015:
-                rs = rng.sample(rules, 20) + [(4, 1, 0)]
+                rs = rng.sample(rules, 24) + [(4, 1, 0)]
             for rule in rs:
                 ds = set()
                 for base in (ry[1], ry[1] + ry[2]):
@@ -274,7 +526,7 @@ def gen(ctx, cids=None, extras=True):
                     if not (mnd <= d <= mxd):
                         continue
                     cy = y if ry[1] <= d < ry[1] + ry[2] else (y - 1 if d < ry[1] else y + 1)
-                    pre = ctx_tokens(cid, rule, [cy - 1, cy, cy + 1, mn, mx + 1] if (cy - 1 <= mn or cy + 1 >= mx) else [cy - 1, cy, cy + 1])
+                    pre = ctx_tokens(cid, rule, edge(cid, [cy - 1, cy, cy + 1]))
                     if pre is None:
                         continue
                     line = f"wy.of {pre} {cy} {d}"
@@ -285,16 +537,21 @@ def gen(ctx, cids=None, extras=True):
                         SIDE[line] = (cid, rule)
                         ops.append(line)
                 for wy in (y,):
-                    pre = ctx_tokens(cid, rule, [wy, wy + 1, mn, mx + 1] if (wy <= mn or wy + 1 >= mx) else [wy, wy + 1])
+                    pre = ctx_tokens(cid, rule, edge(cid, [wy, wy + 1]))
                     if pre is None:
                         continue
                     line = f"wy.weeks {pre} {wy}"
                     SIDE[line] = (cid, rule)
                     ops.append(line)
-                    for w, dow in [(1, rule[1]), (1, 1), (52, 7), (53, 1), (54, 3), (0, 1), (rng.randint(1, 53), rng.randint(1, 7)), (53, rng.randint(0, 8))]:
-                        pre2 = ctx_tokens(cid, rule, [wy - 1, wy, wy + 1, mn, mx + 1] if (wy - 1 <= mn or wy + 1 >= mx) else [wy - 1, wy, wy + 1])
-                        if pre2 is None:
-                            continue
+                    trips = [(1, rule[1]), (1, 1), (52, 7), (53, 1), (54, 3), (0, 1), (rng.randint(1, 53), rng.randint(1, 7)), (53, rng.randint(0, 8))]
+                    if rule[2]:
+                        # the validation of irregular rules: the (possibly short) first and last weeks, every day of week
+                        wl = rng.choice([52, 53, 54])
+                        trips += [(1, dw) for dw in range(1, 8)] + [(wl, dw) for dw in range(1, 8)]
+                    pre2 = ctx_tokens(cid, rule, edge(cid, [wy - 1, wy, wy + 1]))
+                    if pre2 is None:
+                        continue
+                    for w, dow in trips:
                         line = f"wy.date {pre2} {wy} {w} {dow}"
                         SIDE[line] = (cid, rule)
                         ops.append(line)
@@ -307,7 +564,8 @@ def gen(ctx, cids=None, extras=True):
         d = rng.choice([mnd + rng.randint(0, 8), mxd - rng.randint(0, 8), -3, -4, -2, 0, rng.randint(mnd, mxd), rng.randint(-10, 10)])
         if not (mnd <= d <= mxd):
             continue
-        line = f"wd.nav {d} {rng.randint(1, 7)} {mnd} {mxd}"
+        tg = rng.randint(1, 7) if rng.random() < 0.97 else rng.choice([0, 8, -1, 9])
+        line = f"wd.nav {d} {tg} {mnd} {mxd}"
         SIDE[line] = cid
         ops.append(line)
     # n-th weekday of month (ISO)
@@ -318,6 +576,157 @@ def gen(ctx, cids=None, extras=True):
         dim = P().CalendarSystem.iso.get_days_in_month(y, m)
         ops.append(f"wd.nth {first._days_since_epoch} {dim} {rng.choice([1, 2, 3, 4, 5, 5, rng.randint(0, 6)])} {rng.choice([1, 2, 3, 4, 5, 6, 7, rng.randint(0, 8)])}")
     return ops
+
+
+# ---- exhaustive sweep of year boundaries (thorough tier; a sample in the quick tier) ---------------------------------
+
+SWEEP_BEFORE, SWEEP_DAYS = 10, 21     # the 21 days from 10 before a year start to 10 after it
+
+
+def sweep_ops(cid, years, rules_for_year):
+    """one wy.sw op per (year boundary, rule): the days start(y)-10 … start(y)+10, clipped to the calendar"""
+    c, calc, mn, mx, mnd, mxd = cal_info(cid)
+    ops = []
+    for y in years:
+        ry = row(cid, y)
+        if ry is None:
+            continue
+        d0 = max(ry[1] - SWEEP_BEFORE, mnd)
+        d1 = min(ry[1] + SWEEP_BEFORE, mxd)
+        if d1 < d0:
+            continue
+        for rule in rules_for_year(y):
+            pre = ctx_tokens(cid, rule, edge(cid, [y - 2, y - 1, y, y + 1]))
+            if pre is None:
+                pre = ctx_tokens(cid, rule, edge(cid, [y - 1, y, y + 1]))
+                if pre is None:
+                    continue
+                d0 = max(d0, ry[1])
+            line = f"wy.sw {pre} {d0} {d1 - d0 + 1}"
+            SIDE[line] = (cid, rule)
+            ops.append(line)
+    return ops
+
+
+def _sweep(ctx, chunk):
+    cid, y_lo, y_hi = chunk
+    irr, reg = irregular_rules(), regular_rules()
+    for a in range(y_lo, y_hi + 1, 250):
+        ops = sweep_ops(cid, range(a, min(a + 250, y_hi + 1)), lambda y: irr + (reg if y % 5 == 0 else []))
+        ctx.correspond("weekyear.sweep", ops, impl, oracle=oracle, exhaustive=True)
+        for o in ops:
+            SIDE.pop(o, None)
+        ctx.distinct = {hash(x) if isinstance(x, str) else x for x in ctx.distinct}   # the op strings are long
+        _date_cache.clear()
+
+
+# ---- DateAdjusters that set calendar fields (direct oracle) ----------------------------------------------------------
+
+def adjuster_cases(ctx):
+    rng = ctx.rng
+    cases = []
+    for cid in cal_ids():
+        c, calc, mn, mx, mnd, mxd = cal_info(cid)
+        for _ in range(ctx.scale(60, 3000)):
+            d = rng.choice([rng.randint(mnd, mxd), mnd + rng.randint(0, 400), mxd - rng.randint(0, 400)])
+            kind = rng.choice(["start", "end", "day", "day", "month", "month", "period", "period", "period-time"])
+            if kind == "day":
+                arg = rng.choice([1, 28, 29, 30, 31, 32, 0, rng.randint(-2, 35)])
+            elif kind == "month":
+                arg = rng.choice([1, 2, 12, 13, 14, 0, 19, 20, rng.randint(-1, 21)])
+            elif kind == "period":
+                arg = (rng.choice([0, 0, 1, -1, rng.randint(-30, 30)]), rng.choice([0, 1, -1, 12, rng.randint(-40, 40)]),
+                       rng.choice([0, 0, 1, rng.randint(-60, 60)]), rng.choice([0, 1, -1, 30, rng.randint(-500, 500)]))
+            elif kind == "period-time":
+                arg = rng.choice(["hours", "minutes", "seconds", "milliseconds", "ticks", "nanoseconds"])
+            else:
+                arg = 0
+            cases.append((cid, d, kind, arg))
+    return cases
+
+
+def adjuster_case(case):
+    Pm = P()
+    from pyoda_time import DateAdjusters, Period
+    cid, d, kind, arg = case
+    c, calc, mn, mx, mnd, mxd = cal_info(cid)
+    date = mk_date(cid, d)
+    y, m, dd = date.year, date.month, date.day
+    what = f"calendar {cid} day {d} ({y}-{m}-{dd}) {kind}({arg})"
+
+    def fields(r):
+        return (r.year, r.month, r.day)
+    if kind in ("start", "end"):
+        dim = c.get_days_in_month(y, m)
+        r = (DateAdjusters.start_of_month if kind == "start" else DateAdjusters.end_of_month)(date)
+        want = (y, m, 1 if kind == "start" else dim)
+        if fields(r) != want or r.calendar != c:
+            return {"key": "adjuster-" + kind + "-of-month", "what": f"{what} = {fields(r)}, expected {want}"}
+        # first/last: the neighbouring day is in another month (or outside the calendar)
+        nb = r._days_since_epoch + (-1 if kind == "start" else 1)
+        if mnd <= nb <= mxd:
+            o = mk_date(cid, nb)
+            if (o.year, o.month) == (y, m):
+                return {"key": "adjuster-" + kind + "-of-month", "what": f"{what} = {fields(r)} but day {nb} is in the same month"}
+        if cid == "ISO" and 1 <= y <= 9999:
+            ref = datetime.date(y, m, 1) if kind == "start" else (datetime.date(y + (m == 12), m % 12 + 1, 1) - datetime.timedelta(days=1) if (y, m) != (9999, 12) else datetime.date(9999, 12, 31))
+            if r._days_since_epoch + 719163 != ref.toordinal():
+                return {"key": "adjuster-" + kind + "-of-month", "what": f"{what} = day {r._days_since_epoch}, datetime says {ref}"}
+        return None
+    if kind in ("day", "month"):
+        if kind == "day":
+            valid = 1 <= arg <= c.get_days_in_month(y, m)
+            want = (y, m, arg)
+            fn = DateAdjusters.day_of_month(arg)
+        else:
+            valid = 1 <= arg <= c.get_months_in_year(y) and dd <= c.get_days_in_month(y, arg)
+            want = (y, arg, dd)
+            fn = DateAdjusters.month(arg)
+        if valid and not (mnd <= calc._get_days_since_epoch(Pm.LocalDate(want[0], want[1], want[2], c)._year_month_day) <= mxd):
+            valid = False
+        try:
+            r = fn(date)
+        except ValueError:
+            if valid:
+                return {"key": "adjuster-" + kind + "-raises", "what": f"{what} raised ValueError although {want} is a date of the calendar"}
+            return None
+        if not valid:
+            return {"key": "adjuster-" + kind + "-accepts-invalid", "what": f"{what} = {fields(r)}"}
+        if fields(r) != want or r.calendar != c or date.with_date_adjuster(fn) != r:
+            return {"key": "adjuster-" + kind, "what": f"{what} = {fields(r)}, expected {want}"}
+        return None
+    if kind == "period":
+        py, pm, pw, pd = arg
+        p = Period.from_years(py) + Period.from_months(pm) + Period.from_weeks(pw) + Period.from_days(pd)
+        fn = DateAdjusters.add_period(p)
+
+        def run(f):
+            try:
+                return f()._days_since_epoch
+            except (OverflowError, ValueError) as e:
+                return type(e).__name__
+        got = run(lambda: fn(date))
+        steps = run(lambda: date.plus_years(py).plus_months(pm).plus_weeks(pw).plus_days(pd))
+        plus = run(lambda: date.plus(p))
+        if got != plus or (isinstance(steps, int) and got != steps):
+            return {"key": "adjuster-add-period", "what": f"{what}: adjuster {got}, date.plus {plus}, unit by unit {steps}"}
+        if py == 0 and pm == 0 and mnd <= d + 7 * pw + pd <= mxd and got != d + 7 * pw + pd:
+            return {"key": "adjuster-add-period", "what": f"{what}: adjuster {got}, day arithmetic {d + 7 * pw + pd}"}
+        return None
+    if kind == "period-time":
+        p = getattr(Period, "from_" + arg)(1)
+        try:
+            DateAdjusters.add_period(p)
+        except ValueError:
+            pass
+        else:
+            return {"key": "adjuster-add-period-time-accepted", "what": f"DateAdjusters.add_period(Period.from_{arg}(1)) was accepted"}
+        try:
+            DateAdjusters.add_period(None)
+        except TypeError:
+            return None
+        return {"key": "adjuster-add-period-none-accepted", "what": "DateAdjusters.add_period(None) was accepted"}
+    return None
 
 
 def _explore(ctx, chunk):
@@ -332,9 +741,26 @@ def run(ctx):
         # ISO carries all years 1..9999 in the thorough tier: give it its own workers by splitting the rules later if needed
         chunks = [([c], False) for c in cids] + [([], True)]
         ctx.parallel(_explore, chunks)
+        # every year boundary of every calendar: all 49 irregular rules, the 49 regular ones every fifth year
+        sweeps = []
+        for cid in cids:
+            mn, mx = cal_info(cid)[2], cal_info(cid)[3]
+            for a in range(mn, mx + 2, 1000):
+                sweeps.append((cid, a, min(a + 999, mx + 1)))
+        ctx.parallel(_sweep, sweeps)
     else:
         _explore(ctx, (None, True))
-    ctx.note("rules", len(all_rules()))
+        # a sample of the thorough sweep: every rule (regular and irregular) on a few year boundaries of every calendar
+        rng = ctx.rng
+        allr = irregular_rules() + regular_rules()
+        ops = []
+        for cid in cal_ids():
+            mn, mx = cal_info(cid)[2], cal_info(cid)[3]
+            ys = sorted({mn, mn + 1, mx, mx + 1} | {rng.randint(mn + 1, mx) for _ in range(3)})
+            ops += sweep_ops(cid, ys, lambda y: rng.sample(allr, 10))
+        ctx.correspond("weekyear.sweep", ops, impl, oracle=oracle)
+    ctx.check_cases("adjusters.fields", adjuster_cases(ctx), adjuster_case)
+    ctx.note("rules", len(all_rules()) + len(extra_irregular_rules()))
     ctx.note("calendars", len(cal_ids()))
 
 
@@ -342,6 +768,12 @@ def replay_op(op, failure):
     t = op.split(" ")
     if t[0] in ("wd.nth",):
         return oracle(t)
+    if op.startswith("("):
+        import ast
+        try:
+            return adjuster_case(ast.literal_eval(op))
+        except (ValueError, SyntaxError):
+            return None
     # other ops need the side table (calendar / rule); rebuild it from the failure text when present
     import re
     m = re.search(r"calendar (.+?) rule \((\d+), (\d+), (\d+)\)", failure.get("what", ""))
